@@ -31,6 +31,8 @@ def make_case(seed, prop, index, families=MAIN_FAMILIES, flavours=S.FLAVOURS_MAI
         case = g.case_disj(flavour, shape, n, seek=True)
     elif fam in ("REUSE0", "REUSE1"):
         case = g.case_reuse(flavour, shape, int(fam[-1]), n, base_side=rng.randrange(2))
+    elif fam == "SWAP":
+        case = g.case_swap(flavour, shape, n)
     elif fam == "CLASH":
         case = g.case_conf(flavour, shape, n, clash=True)
     elif fam == "SEEK1":
